@@ -25,7 +25,10 @@ def gen_W(rng, maxops=20):
     ops = []
     gets = 0
     ln = n
-    head = "W %d %d %s |" % (1 if fixed else 0, cap, ",".join(map(str, vals)) if vals else "-")
+    spare = [] if fixed or rng.random() < 0.5 else [rng.randint(700, 799) for _ in range(rng.randint(1, 3))]
+    cap = max(cap, n + len(spare))
+    vtok = (",".join(map(str, vals)) if vals else "-") + ("/" + ",".join(map(str, spare)) if spare else "")
+    head = "W %d %d %s |" % (1 if fixed else 0, cap, vtok)
     for _ in range(rng.randint(1, maxops)):
         if ops:   # exact current length according to the documented semantics
             rec = spec_W(head + " " + " ".join(ops))[-1]
@@ -65,7 +68,7 @@ def gen_W(rng, maxops=20):
             ops.append("pop"); gets += 1; ln = max(0, ln - (0 if fixed else 1))
         elif not fixed:
             ops.append("gr:%d" % (ln + rng.randint(0, 4)))
-    return "W %d %d %s | %s" % (1 if fixed else 0, cap, ",".join(map(str, vals)) if vals else "-", " ".join(ops))
+    return "%s %s" % (head, " ".join(ops))
 
 
 def f64bits(x):
@@ -314,6 +317,30 @@ def spec_K(line):
     return out
 
 
+def gen_A(rng):
+    """argument conversion through the Go-func gateway: integer parameters of every kind, arguments at the kind's
+    boundaries, beyond them (wrap), non-integral / special doubles, booleans, undefined, null; missing and extra args"""
+    kinds = [rng.choice(list(KINDS)) for _ in range(rng.randint(1, 4))]
+    variadic = rng.random() < 0.4
+    args = []
+    for j in range(rng.randint(0, len(kinds) + 3)):
+        k = kinds[min(j, len(kinds) - 1)]
+        lo, hi = KINDS[k]
+        r = rng.random()
+        if r < 0.35:
+            v = rng.choice([lo, hi, lo - 1, hi + 1, 0, -1, 1, hi // 2, 2 * hi + 1, lo + 1, hi - 1, 255, 256, 65535, 65536, -129, 2**31, 2**32, -(2**31) - 1])
+            v = max(-SAFE, min(SAFE, v)); args.append("i%d" % v)
+        elif r < 0.55:
+            args.append("i%d" % rng.randint(-(2**rng.randint(1, 53)), 2**rng.randint(1, 53)))
+        elif r < 0.75:
+            x = rng.choice([-1, 1]) * (rng.randint(0, 2**20) + rng.random()) * 2.0**rng.randint(-3, 30)
+            if x == int(x): x += 0.5
+            args.append("f%016x" % f64bits(x))
+        else:
+            args.append(rng.choice(["t", "F", "u", "n", "fn", "fp", "fm", "fz"]))
+    return "A %d %s | %s" % (1 if variadic else 0, ",".join(kinds), " ".join(args))
+
+
 def gen_gateways():
     """every arity / argument count / result shape up to the bounds below (all branches of both gateways)"""
     lines = []
@@ -339,21 +366,39 @@ def gen_gateways():
 
 
 def gen_X(rng):
+    """script graph: objects (data properties and getters), arrays (with holes), Maps, Sets; references everywhere
+    (sharing, cycles, self loops) except that Map / Set entries refer only to leaf objects (a cycle through a Map would
+    overflow the host stack on the current code: that case is a separate E line)."""
     n = rng.randint(1, 7)
+    kinds = ["o" if i == 0 and rng.random() < 0.5 else rng.choice("ooooaaams") for i in range(n)]
+    leaf = [k == "o" and rng.random() < 0.4 for k in kinds]
+    leaves = [i for i in range(n) if leaf[i]]
     toks = []
-    for i in range(n):
-        arr = rng.random() < 0.4
-        if arr:
-            keys = list(range(rng.randint(0, 4)))
-        else:
-            keys = sorted(rng.sample(range(10), rng.randint(0, 4)))
+    for i, kind in enumerate(kinds):
+        if kind in "ms":
+            keys = sorted(rng.sample(range(10), rng.randint(0, 3)))
+            fs, used = [], set()
+            for k in keys:
+                if leaves and rng.random() < 0.5:
+                    r = rng.choice(leaves)
+                    if kind == "s" and r in used: continue     # a Set keeps one copy of an element
+                    used.add(r); fs.append("%d=r%d" % (k, r))
+                else:
+                    fs.append("%d=%d" % (k, 100 + k))            # distinct primitives
+            toks.append(kind + ":" + ",".join(fs))
+            continue
+        keys = list(range(rng.randint(0, 4))) if kind == "a" else sorted(rng.sample(range(10), rng.randint(0, 4)))
         fs = []
         for k in keys:
-            if rng.random() < 0.55:
-                fs.append("%d=r%d" % (k, rng.randint(0, n - 1)))
+            r = rng.random()
+            if leaf[i] or r >= 0.55:
+                v = "%d" % rng.randint(-9, 99)
             else:
-                fs.append("%d=%d" % (k, rng.randint(-9, 99)))
-        toks.append(("a:" if arr else "o:") + ",".join(fs))
+                v = "r%d" % rng.randint(0, n - 1)
+            if kind == "a" and rng.random() < 0.15: v = "h"
+            elif kind == "o" and rng.random() < 0.2: v = "g" + v
+            fs.append("%d=%s" % (k, v))
+        toks.append(kind + ":" + ",".join(fs))
     return "X " + " ".join(toks)
 
 
@@ -368,6 +413,9 @@ E_CASES = [
     ("E var sp=[]; sp[5000]=1; sp[2]=7; sp", None),
     ("E Array.prototype[1]='P'; [1,,3]", None),
     ("E [[1,,2],[,]]", None),
+    ("E var cm = new Map(); cm.set('self', cm); cm", None),
+    ("E var cs = new Set(); cs.add(cs); [cs]", None),
+    ("E var sm = new Map([[1,{a:1}]]); [sm, sm]", "#0[#1[<1,#2{a:1}>],#1]"),
     ("E ({a:[1,,3]})", None),
     ("E new Map([[1,{a:1}]])", None),
     ("E new Set([1,[2]])", None),
@@ -382,8 +430,9 @@ def spec_W(line, observed=None):
     (len, slice, handle values, g)  — or None where the documentation leaves the outcome open."""
     f = line.split()
     fixed = f[1] == "1"
-    vals = [] if f[3] == "-" else [int(x) for x in f[3].split(",")]
-    cap = max(int(f[2]), len(vals))
+    live, _, spare = f[3].partition("/")
+    vals = [] if live in ("-", "") else [int(x) for x in live.split(",")]
+    cap = max(int(f[2]), len(vals) + (len(spare.split(",")) if spare else 0))
     sl = list(vals)
     H = []            # handle -> ["att", idx] | ["det", val]
     at = {}           # idx -> handle
@@ -579,7 +628,7 @@ def main(ctx):
     ctx.lake_build(["GojaModel.C13.Props", "GojaModel.C13.Tie"])
     # the driver does not depend on Props/Tie: a broken theorem or tie must not switch the correspondence off
     ok, errs = ctx.lake_build(["model_c13"])
-    ctx.audit("GojaModel.C13.Props", expect_min=36)
+    ctx.audit("GojaModel.C13.Props", expect_min=48)
     if not quick:
         ctx.leanchecker("GojaModel.C13.Props")
     ctx.log("lean done")
@@ -624,7 +673,9 @@ def main(ctx):
     Mm = [l for l in corpus if l.startswith("M ")] + [gen_M(rng) for _ in range(300 if quick else 10000)]
     CJ = gen_gateways()
     Ig = [l for l in corpus if l.startswith("I ")] + [gen_I(rng) for _ in range(800 if quick else 30000)]
-    both = W + NF + Sx + X + V + Mm + CJ + Ig
+    Ag = [l for l in corpus if l.startswith("A ")] + [gen_A(rng) for _ in range(600 if quick else 30000)]
+    Y = [l for l in corpus if l.startswith("Y ")] + [gen_Y(rng) for _ in range(1500 if quick else 60000)]
+    both = W + NF + Sx + X + V + Mm + CJ + Ig + Ag + Y
     K = [l for l in corpus if l.startswith("K ")] + [gen_K(rng) for _ in range(400 if quick else 15000)]
     f_k = bg.submit(run_sharded, ctx, h, K, 3)
 
@@ -632,9 +683,18 @@ def main(ctx):
     f_h = bg.submit(run_sharded, ctx, h, both, 8)
     f_t = bg.submit(run_sharded, ctx, h, T, 4)
     f_p = bg.submit(run_sharded, ctx, h, P, 4)
-    f_e = bg.submit(run_sharded, ctx, h, E, 1)
-    Y = [l for l in corpus if l.startswith("Y ")] + [gen_Y(rng) for _ in range(1500 if quick else 60000)]
-    f_y = bg.submit(run_sharded, ctx, h, Y, 4)
+    def run_E():
+        res = []
+        for l in E:       # one process per line: a runaway recursion kills the process (fatal stack overflow)
+            rc, o, err = ctx.run_lines([h], [l], timeout=600)
+            if o:
+                res.append(o[0])
+            elif "stack overflow" in err or "stack exceeds" in err:
+                res.append("FATAL host process killed: stack overflow")
+            else:
+                res.append("INCONCLUSIVE rc=%s" % rc)
+        return res
+    f_e = bg.submit(run_E)
     if model_ok:
         rc, mres, err = ctx.run_lines([model], model_lines(both), timeout=3600)
         if rc == 124:      # slow machine: inconclusive, once more with a longer limit
@@ -647,7 +707,7 @@ def main(ctx):
     hres = f_h.result()
     ctx.log("correspondence streams done")
     ctx.count(len(both))
-    groups = {"W": [], "N": [], "F": [], "G": [], "S": [], "X": [], "V": [], "M": [], "C": [], "J": [], "I": []}
+    groups = {"W": [], "N": [], "F": [], "G": [], "S": [], "X": [], "V": [], "M": [], "C": [], "J": [], "I": [], "A": [], "Y": []}
     for i, l in enumerate(both):
         groups[l[0]].append(i)
     opmix, lens = {}, {}
@@ -667,12 +727,12 @@ def main(ctx):
         if sig not in found:
             found[sig] = (summary, replay)
 
-    for gname in ("M", "C", "J", "I"):
+    for gname in ("M", "C", "J", "I", "A"):
         for i in groups[gname]:
             ctx.nontriv(both[i])
             if hres[i].startswith("INCONCLUSIVE"): continue
             if "PANIC" in hres[i] or (mres[i] is not None and hres[i] != mres[i]):
-                what = {"M": "map-wrapper", "C": "gofunc-gateway", "J": "jsfunc-gateway", "I": "goslice-live-view"}[gname]
+                what = {"M": "map-wrapper", "C": "gofunc-gateway", "J": "jsfunc-gateway", "I": "goslice-live-view", "A": "gofunc-arg-conversion"}[gname]
                 if gname == "I":
                     ishrunk = ctx.stats.get("I_shrunk", 0)
                     if ishrunk >= 3:
@@ -763,15 +823,50 @@ def main(ctx):
             report("shape-roundtrip:" + " ".join(t for t in both[i].split()[1:] if not t.startswith("v=")),
                    "ToValue/Export of shape %s: implementation %s, documented table %s" % (both[i], hres[i], mres[i]),
                    {"kind": "input", "lines": [both[i]], "expected": [mres[i]], "observed": [hres[i]]})
+    xspec = {}
+    if model_ok:
+        rc, xs, err = ctx.run_lines([model], ["XS" + both[i][1:] for i in groups["X"]], timeout=3600)
+        if len(xs) == len(groups["X"]):
+            xspec = dict(zip(groups["X"], xs))
     xshared = 0
     for i in groups["X"]:
         ctx.nontriv(both[i])
         if re.search(r"#(\d+)(?![\[{\d])", hres[i]):
             xshared += 1      # at least one back-reference: sharing or a cycle was exercised
         if hres[i].startswith("INCONCLUSIVE"): continue
-        if hres[i].startswith("PANIC") or (mres[i] is not None and hres[i] != mres[i]):
-            report("export-sharing:" + re.sub(r"\W+", "-", both[i])[:50], "Export of the script graph %s: implementation %s, isomorphic image %s" % (both[i], hres[i], mres[i]),
-                   {"kind": "input", "lines": [both[i]], "expected": [mres[i]], "observed": [hres[i]]})
+        want = xspec.get(i, mres[i])     # the judge: every object through get-then-put (one Go value per script object)
+        if hres[i].startswith("PANIC") or (want is not None and hres[i] != want):
+            mapset = any(tk[:2] in ("m:", "s:") for tk in both[i].split()[1:])
+            sig = "mapset-export-ignores-cache" if mapset and not hres[i].startswith("PANIC") else "export-sharing:" + re.sub(r"\W+", "-", both[i])[:50]
+            if sig == "mapset-export-ignores-cache" and sig in found:
+                continue
+            line2 = both[i]
+            if sig == "mapset-export-ignores-cache":
+                # shrink: drop fields while implementation and isomorphic image still differ
+                toks = both[i].split(); changed = True
+                while changed:
+                    changed = False
+                    for ti in range(1, len(toks)):
+                        kind, _, body = toks[ti].partition(":")
+                        parts = [x for x in body.split(",") if x]
+                        for j in range(len(parts)):
+                            cand = toks[:ti] + [kind + ":" + ",".join(parts[:j] + parts[j + 1:])] + toks[ti + 1:]
+                            if kind == "a" and j != len(parts) - 1: continue     # keep array indices dense
+                            l2 = " ".join(cand)
+                            rc, o, _ = ctx.run_lines([h], [l2], timeout=300)
+                            rc2, s2, _ = ctx.run_lines([model], ["XS" + l2[1:]], timeout=300)
+                            if o and s2 and o[0] != s2[0] and not o[0].startswith(("PANIC", "JSERR")):
+                                toks, changed = cand, True
+                                break
+                        if changed: break
+                line2 = " ".join(toks)
+                rc, o, _ = ctx.run_lines([h], [line2], timeout=300)
+                rc2, s2, _ = ctx.run_lines([model], ["XS" + line2[1:]], timeout=300)
+                hres_i, want = (o or ["?"])[0], (s2 or ["?"])[0]
+            else:
+                hres_i = hres[i]
+            report(sig, "Export of the script graph %s: implementation %s, isomorphic image (one Go value per script object) %s" % (line2, hres_i, want),
+                   {"kind": "input", "lines": [line2], "expected": [want], "observed": [hres_i]})
     ctx.stats["X_graphs_with_sharing_or_cycle"] = xshared
     ctx.stats["wrap_rel_seen"] = wraps
     ctx.stats["W_opmix"] = opmix
@@ -826,9 +921,15 @@ def main(ctx):
     ctx.count(len(E))
     for (line, want), got in zip(E_CASES, eres):
         ctx.nontriv(line)
-        if got.startswith("PANIC"):
+        if got.startswith("FATAL"):
+            sig = "mapset-export-ignores-cache" if ("new Map" in line or "new Set" in line) else "export-fatal:" + re.sub(r"\W+", "-", line)[:40]
+            report(sig, "Export of %s: %s" % (line[2:], got), {"kind": "input", "lines": [line], "expected": ["terminates with the cycle preserved"], "observed": [got]})
+        elif got.startswith("PANIC"):
             sig = "export-panic:" + re.sub(r"\W+", "-", line)[:40]
             report(sig, "Go panic escapes Export/ExportTo of %s: %s" % (line[2:], got[:200]), {"kind": "input", "lines": [line], "observed": [got]})
+        elif want is not None and got != want and ("new Map" in line or "new Set" in line):
+            report("mapset-export-ignores-cache", "Export of %s loses sharing: got %s want %s" % (line[2:], got, want),
+                   {"kind": "input", "lines": [line], "expected": [want], "observed": [got]})
         elif want is not None and got != want:
             report("export-sharing:" + re.sub(r"\W+", "-", line)[:40], "Export of %s loses sharing/cycles: got %s want %s" % (line[2:], got, want),
                    {"kind": "input", "lines": [line], "expected": [want], "observed": [got]})
@@ -870,26 +971,29 @@ def main(ctx):
 
     # Y: within ONE ExportTo the same script object must be the same Go value at every destination of the same type,
     # whatever the order of untyped (interface{}) and typed (struct pointer / named map / typed slice) visits
-    yres = f_y.result()
-    ctx.count(len(Y))
     ymulti = 0
     ybad = []
-    for line, r in zip(Y, yres):
+    for i in groups["Y"]:
+        line, r = both[i], hres[i]
         ctx.nontriv(line)
         if r.startswith("INCONCLUSIVE"):
             continue
-        m = re.match(r"ok pairs=(\d+) classes=(\d+) multiclass=(\d+)", r)
-        if m:
-            ymulti += 1 if int(m.group(3)) > 0 else 0
-            continue
-        ybad.append((line, r))
-    ctx.stats["Y_cases_with_object_at_several_destination_types"] = ymulti
-    ctx.obligation("oracle:exportTo-mixed-destinations-identity", "correspondence", not ybad,
-                   "%d graphs; %s" % (len(Y), ("first failure: %s -> %s" % ybad[0]) if ybad else "one Go identity per (object, destination type) everywhere"))
+        if re.search(r"#(\d+)(?![*\[{\d])", r):
+            ymulti += 1          # some identity is reached more than once
+        if r.startswith(("SPLIT", "PANIC", "NIL", "MISSINGKEY", "LEN", "VALUE", "EXPORTERR")) or (mres[i] is not None and r != mres[i]):
+            ybad.append((line, r, mres[i]))
+    ctx.stats["Y_graphs_with_a_shared_identity"] = ymulti
     if ybad:
-        # shrink: fewest nodes first (lines are independent inputs), then drop fields while it still fails
-        line, r = min(ybad, key=lambda lr: len(lr[0]))
+        line, r, want = min(ybad, key=lambda lr: len(lr[0]))
         toks = line.split()
+        def ybad_now(cand):
+            l2 = " ".join(cand)
+            rc, o, _ = ctx.run_lines([h], [l2], timeout=300)
+            rc2, m2, _ = ctx.run_lines([model], [l2], timeout=300) if model_ok else (0, [None], "")
+            if not o: return None
+            if o[0].startswith("SPLIT") or (m2 and m2[0] is not None and o[0] != m2[0] and not o[0].startswith("JSERR")):
+                return (o[0], m2[0] if m2 else None)
+            return None
         changed = True
         while changed:
             changed = False
@@ -898,19 +1002,17 @@ def main(ctx):
                 parts = [x for x in body.split(",") if x]
                 for j in range(len(parts)):
                     cand = toks[:i] + [kind + ":" + ",".join(parts[:j] + parts[j + 1:])] + toks[i + 1:]
-                    rc, o, _ = ctx.run_lines([h], [" ".join(cand)], timeout=300)
-                    if o and not o[0].startswith("ok") and o[0].split()[0] == r.split()[0]:
+                    if ybad_now(cand):
                         toks, changed = cand, True
                         break
                 if changed:
                     break
         l2 = " ".join(toks)
-        rc, o, _ = ctx.run_lines([h], [l2], timeout=300)
-        got = o[0] if o else r
-        cls = re.search(r"class=(\S+)", got)
-        report("exportTo-identity-split:%s" % (cls.group(1) if cls else got.split()[0]),
-               "one ExportTo exported the same script object to two different Go values of the same type: %s -> %s" % (l2, got),
-               {"kind": "input", "lines": [l2], "expected": ["ok (one Go identity per (script object, destination type))"], "observed": [got]})
+        res = ybad_now(toks) or (r, want)
+        cls = re.search(r"class=(\S+)", res[0])
+        report("exportTo-identity-split:%s" % (cls.group(1) if cls else "structure"),
+               "one ExportTo into mixed interface{} / typed destinations: %s -> %s (one Go value per (script object, destination type): %s)" % (l2, res[0][:300], (res[1] or "?")[:300]),
+               {"kind": "input", "lines": [l2], "expected": [res[1]], "observed": [res[0]]})
 
     for sig, (summary, replay) in found.items():
         ctx.violation(sig, summary, replay)
@@ -936,7 +1038,7 @@ def replay(ctx, path):
             print("target        : *%sNode (struct{Any interface{}; Next *T; M map; L []*T; Any2 interface{}; ...}); script graph nodes n0.. as listed" % l.split()[1])
         print("input         :", l)
         print("implementation:", x)
-        if l[0] in "WNFGSXVMCJI" and os.path.exists(ctx.model_exe()):
+        if l[0] in "WNFGSXVMCJIAY" and os.path.exists(ctx.model_exe()):
             rc2, m, _ = ctx.run_lines([ctx.model_exe()], model_lines([l]), timeout=300)
             print("mechanism model:", m[0] if m else "?")
         if l[0] == "K":
